@@ -1,10 +1,22 @@
 #!/bin/bash
-# tools/seeded-run.sh <dir under seeded/> <property> [tier]: apply the change to /repo, run the check, undo
+# tools/seeded-run.sh <dir under seeded/> <property> [tier]
+# Runs the check of <property> against the seeded change. Default: on a scratch worktree of /repo
+# (SNT_REPO), so that /repo itself is never touched while background sweeps are using it.
+# With IN_PLACE=1: git -C /repo apply; ./check; git -C /repo checkout -- .   (as the brief describes)
 d=$1; prop=$2; tier=${3:-quick}
 cd "$(dirname "$0")/.."
-git -C /repo diff --quiet || { echo "/repo is dirty"; exit 2; }
-git -C /repo apply "$PWD/seeded/$d/patch.diff" || exit 2
-out=$(VERIF_REPLAY_DIR=/tmp/seeded-replays/$d ./check $prop $tier --no-evidence 2>&1); rc=$?
-git -C /repo checkout -- .
-echo "$d $prop $tier rc=$rc: $(echo "$out" | grep -m3 -E 'kind=' | cut -c1-200 | tr '\n' ' ')"
+if [ -n "${IN_PLACE:-}" ]; then
+  git -C /repo diff --quiet || { echo "/repo is dirty"; exit 2; }
+  git -C /repo apply "$PWD/seeded/$d/patch.diff" || exit 2
+  out=$(VERIF_REPLAY_DIR=/tmp/seeded-replays/$d ./check $prop $tier --no-evidence 2>&1); rc=$?
+  git -C /repo checkout -- .
+else
+  S=/tmp/snt-seeded
+  git -C /repo worktree remove --force $S >/dev/null 2>&1; rm -rf $S
+  git -C /repo worktree add -q --detach $S HEAD || exit 2
+  git -C $S apply "$PWD/seeded/$d/patch.diff" || { echo "$d: patch does not apply to HEAD"; git -C /repo worktree remove --force $S; exit 2; }
+  out=$(SNT_REPO=$S VERIF_REPLAY_DIR=/tmp/seeded-replays/$d ./check $prop $tier --no-evidence 2>&1); rc=$?
+  git -C /repo worktree remove --force $S
+fi
+echo "$d $prop $tier rc=$rc: $(echo "$out" | grep -E 'kind=' | sed 's/.*kind=//' | cut -c1-90 | sort -u | head -4 | tr '\n' ';')"
 echo "$out" | tail -1 | cut -c1-200
